@@ -12,13 +12,18 @@
     i.e. allocations <= 3 * log_growth(peak) + 9, however many children are processed and
     whatever the pattern of filling, draining and refilling. *)
 From FB Require Import Base Syntax World SlotMap Fub Unbounded Ordered Adapters Step Tactics SlotMapProofs WorldProofs FubProofs
-  UnboundedProofs StepProofs AllocProofs GrowthProofs Reach.
+  UnboundedProofs OrderedProofs StepProofs AllocProofs GrowthProofs Reach.
 
 Section WithParams.
 Variable P : params.
 Hypothesis HP : params_ok P.
 
-Definition held (k : coll) : nat := match k with CFu u | CMu u => total (groups u) | _ => 0 end.
+Definition held (k : coll) : nat :=
+  match k with
+  | CFu u | CMu u => total (groups u)
+  | CFo q => total (groups (fu_inner q)) + length (oheap (fu_ord q))   (* in progress + parked outputs *)
+  | _ => 0
+  end.
 
 Fixpoint run_peak (s : state) (ops : list op) : nat :=
   match ops with
@@ -34,9 +39,19 @@ Definition gi (u : fu) (A pk : nat) : Prop :=
        /\ (1 <= k -> pGrowth P ^ (k - 1) <= last_cap (groups u))
        /\ (2 <= k -> pGrowth P ^ (k - 2) <= pk).
 
+(** the heap of parked outputs of FuturesOrdered: [j] counts its growths; each at least doubles
+    the capacity and needs the heap to be full *)
+Definition hi (o : ord) (A pk : nat) : Prop :=
+  exists j, A <= j + 1 /\ (1 <= j -> 2 ^ (j + 1) <= hcap o) /\ (2 <= j -> 2 ^ j <= pk).
+
+Definition foi (q : fo) (A pk : nat) : Prop :=
+  total (groups (fu_inner q)) + length (oheap (fu_ord q)) <= pk
+  /\ exists A1 A2, A <= A1 + A2 /\ gi (fu_inner q) A1 pk /\ hi (fu_ord q) A2 pk.
+
 Definition GI (k : coll) (A pk : nat) : Prop :=
   match k with
   | CFu u | CMu u => gi u A pk
+  | CFo q => foi q A pk
   | CNone => A = 0
   | _ => True
   end.
@@ -137,7 +152,7 @@ Proof.
 Qed.
 
 (** collections other than the two unbounded ones stay what they are *)
-Definition is_other (k : coll) : Prop := match k with CNone | CFu _ | CMu _ => False | _ => True end.
+Definition is_other (k : coll) : Prop := match k with CNone | CFu _ | CMu _ | CFo _ => False | _ => True end.
 
 Lemma step_core_other k o w : is_other k -> is_other (fst (step_core P k o w)).
 Proof.
@@ -205,6 +220,204 @@ Proof.
   - destruct mrg; cbn [fst snd]; apply Hsame; unfold cleanup; apply na_cleanup_from.
 Qed.
 
+(** ** FuturesOrdered: the groups of the inner collection and the heap of parked outputs *)
+Lemma gi_down u A A' pk : gi u A pk -> A' <= A -> gi u A' pk.
+Proof. intros (G & T & k & A1 & R) Hle. split; auto. split; auto. exists k. split; [lia|exact R]. Qed.
+
+Lemma hi_mono o A pk pk' : hi o A pk -> pk <= pk' -> hi o A pk'.
+Proof. intros (j & A1 & A2 & A3) Hle. exists j. splits; auto. intros Hj. specialize (A3 Hj). lia. Qed.
+
+Lemma foi_mono q A pk pk' : foi q A pk -> pk <= pk' -> foi q A pk'.
+Proof.
+  intros (T & A1 & A2 & Hle & G & H) Hp. split; [lia|]. exists A1, A2. splits; auto.
+  - eapply gi_mono; eauto.
+  - eapply hi_mono; eauto.
+Qed.
+
+Lemma poll_gi' u t w A1 pk :
+  winv (cnt (blks (groups u))) None w -> fu_ok false u -> gi u A1 pk ->
+  let '(u', sp, w') := fu_poll_next P false u t w in gi u' A1 pk /\ nalloc w' = nalloc w.
+Proof.
+  intros Hw Hok Hgi.
+  pose proof (@fu_poll_next_spec P false u t w Hw Hok) as Hs. unfold fu_poll_next in *.
+  destruct (groups u) as [|g0 gs0] eqn:Hg; [split; auto|].
+  rewrite <- Hg in *. destruct Hgi as (G & T & k & A1' & A2 & A3 & A4).
+  assert (Hg1 : 1 <= pGrowth P) by (destruct HP as (_ & _ & ? & _); lia).
+  pose proof (@fu_loop_growth P Hg1 false (length (groups u)) u t w G) as Hl.
+  pose proof (@fu_loop_spec P false (length (groups u)) u t w Hw Hok ltac:(rewrite Hg; discriminate)) as H2.
+  destruct (fu_loop P false (length (groups u)) u t w) as [[u' sp] w']. destruct Hl as (G' & L & N).
+  destruct H2 as (_ & _ & Hne' & _).
+  destruct Hs as (_ & _ & (Hle & _)). split; auto. split; auto. split; [lia|]. exists k. rewrite L. splits; auto.
+  intros E. congruence.
+Qed.
+
+Lemma pow2_step x : 2 ^ (x + 1) = 2 * 2 ^ x.
+Proof. rewrite Nat.add_1_r. apply Nat.pow_succ_r'. Qed.
+
+Lemma park_hi o i tk w A2 pk :
+  hi o A2 pk -> S (length (oheap o)) <= pk ->
+  let '(o', w') := ord_park o i tk w in
+  hi o' (A2 + (nalloc w' - nalloc w)) pk /\ nalloc w <= nalloc w'
+  /\ length (oheap o') = S (length (oheap o)).
+Proof.
+  intros (j & A1 & B & C) Hlen. unfold ord_park, vec_grow.
+  destruct (Nat.ltb_spec (length (oheap o)) (hcap o)) as [Hlt|Hge]; cbn [oheap hcap nalloc count_alloc].
+  - splits; [|lia|rewrite app_length; simpl; lia]. exists j. splits; auto. lia.
+  - splits; [|lia|rewrite app_length; simpl; lia]. exists (j + 1). splits.
+    + lia.
+    + intros _. cbn [hcap]. rewrite pow2_step. destruct (Nat.eq_dec j 0) as [->|Hj]; [change (2 ^ (0 + 1)) with 2; lia|].
+      specialize (B ltac:(lia)). lia.
+    + intros Hj. specialize (B ltac:(lia)). lia.
+Qed.
+
+Lemma rebase_total gs :
+  total (map (fun g => {| tasks := sm_map_children (flip_child P) (tasks g); blk := blk g |}) gs) = total gs.
+Proof. induction gs as [|g gs IH]; simpl; [reflexivity|]. unfold fub_len at 1. simpl. fold (fub_len g). congruence. Qed.
+
+Lemma rebase_geo gs :
+  geo (pGrowth P) (map (fun g => {| tasks := sm_map_children (flip_child P) (tasks g); blk := blk g |}) gs)
+  <-> geo (pGrowth P) gs.
+Proof.
+  induction gs as [|a [|b t] IH]; simpl; try tauto.
+  unfold fub_cap at 1 2. simpl. rewrite !sm_map_children_cap. simpl in IH. fold (fub_cap a) (fub_cap b). tauto.
+Qed.
+
+Lemma rebase_last_cap gs :
+  last_cap (map (fun g => {| tasks := sm_map_children (flip_child P) (tasks g); blk := blk g |}) gs) = last_cap gs.
+Proof.
+  unfold last_cap, last_opt. rewrite <- map_rev. destruct (rev gs) as [|x r]; simpl; auto.
+  unfold fub_cap. simpl. apply sm_map_children_cap.
+Qed.
+
+Lemma rebase_foi q A pk : foi q A pk -> foi (fo_rebase P q) A pk.
+Proof.
+  unfold fo_rebase. destruct (msb_set P (nout (fu_ord q))); auto.
+  intros (T & A1 & A2 & Hle & (G & T1 & k & K1 & K2 & K3 & K4) & (j & J1 & J2 & J3)).
+  split; [cbn [fu_inner fu_ord groups oheap ord_rebase]; rewrite rebase_total, map_length; exact T|].
+  exists A1, A2. splits; auto.
+  - unfold gi. cbn [fu_inner groups]. split; [apply rebase_geo; exact G|]. split; [rewrite rebase_total; exact T1|].
+    exists k. rewrite rebase_last_cap. splits; auto.
+    intros E. apply K2. destruct (groups (fu_inner q)); [reflexivity|discriminate].
+  - exists j. cbn [fu_ord ord_rebase hcap]. splits; auto.
+Qed.
+
+Lemma fo_loop_foi n q t w A pk :
+  winv (fo_own q) None w -> fu_ok false (fu_inner q) -> foi q (A + nalloc w) pk ->
+  let '(q', sp, w') := fo_loop P n q t w in foi q' (A + nalloc w') pk.
+Proof.
+  revert q w. induction n as [|n IH]; intros q w Hw Hok Hf; cbn [fo_loop]; [exact Hf|].
+  destruct Hf as (T & A1 & A2 & Hle & G & H).
+  pose proof (@fu_poll_next_spec P false (fu_inner q) t w Hw Hok) as Hs.
+  pose proof (@poll_gi' (fu_inner q) t w A1 pk Hw Hok G) as Hp.
+  destruct (fu_poll_next P false (fu_inner q) t w) as [[u sp] w1].
+  destruct Hs as (Hw1 & Hok1 & (L1 & L2 & L3)). destruct Hp as [G1 N1]. unfold loop_post in *.
+  destruct sp as [| |tk c].
+  - split; [cbn [fu_inner fu_ord]; lia|]. exists A1, A2. rewrite N1. splits; auto.
+  - split; [cbn [fu_inner fu_ord]; lia|]. exists A1, A2. rewrite N1. splits; auto.
+  - destruct (L2 eq_refl) as [Hdec Hpos]. cbn [fu_ord].
+    destruct (Z.eqb (cidx c) (nout (fu_ord q))).
+    + split; [cbn [fu_inner fu_ord oheap ord_set_out]; lia|]. exists A1, A2. rewrite N1. splits; auto.
+    + pose proof (@park_hi (fu_ord q) (cidx c) tk w1 A2 pk H ltac:(lia)) as Hpk.
+      destruct (ord_park (fu_ord q) (cidx c) tk w1) as [o w2] eqn:Epk. destruct Hpk as (H2 & N2 & Len2).
+      assert (Hw2 : winv (fo_own {| fu_inner := u; fu_ord := o |}) None w2).
+      { unfold ord_park in Epk. destruct (vec_grow _ _) in Epk. inversion Epk; subst. apply winv_count_alloc. exact Hw1. }
+      apply (IH {| fu_inner := u; fu_ord := o |} w2 Hw2 Hok1).
+      split; [cbn [fu_inner fu_ord]; lia|]. exists A1, (A2 + (nalloc w2 - nalloc w1)). splits; auto. lia.
+Qed.
+
+Lemma fo_poll_foi q t w A pk :
+  winv (fo_own q) None w -> fu_ok false (fu_inner q) -> foi q (A + nalloc w) pk ->
+  let '(q', sp, w') := fo_poll_next P q t w in foi q' (A + nalloc w') pk.
+Proof.
+  intros Hw Hok Hf. unfold fo_poll_next.
+  destruct (fo_rebase_inner P q) as (R1 & R2 & R3 & R4).
+  pose proof (rebase_foi _ _ _ Hf) as Hf1.
+  set (q1 := fo_rebase P q) in *.
+  assert (Hw1 : winv (fo_own q1) None w) by (unfold fo_own; rewrite R1; auto).
+  destruct (ord_try_release P (fu_ord q1)) as [[tk o]|] eqn:Hr.
+  - pose proof (@ord_try_release_len P _ _ _ Hr) as Hl.
+    destruct Hf1 as (T & A1 & A2 & Hle & G & (j & J1 & J2 & J3)).
+    split; [cbn [fu_inner fu_ord]; lia|]. exists A1, A2. splits; auto. exists j. splits; auto.
+    unfold ord_try_release in Hr. destruct (heap_min (oheap (fu_ord q1))) as [[i t0]|]; [|discriminate].
+    destruct (Z.eqb i (nout (fu_ord q1))); [|discriminate]. inversion Hr; subst. exact J2.
+  - apply fo_loop_foi; auto.
+Qed.
+
+Lemma fo_push_foi front q c w A pk :
+  winv (fo_own q) None w -> fu_ok false (fu_inner q) -> nalloc w = 0 -> foi q A pk ->
+  let '(q', w') := fo_push P front q c w in
+  foi q' (A + nalloc w') (Nat.max pk (held (CFo q'))).
+Proof.
+  intros Hw Hok Hz (T & A1 & A2 & Hle & G & H). unfold fo_push.
+  set (c' := child_set_idx c _).
+  assert (G0 : gi (fu_inner q) (A1 + nalloc w) pk) by (rewrite Hz, Nat.add_0_r; exact G).
+  pose proof (@push_gi false (fu_inner q) c' w A1 pk Hw Hok G0) as Hp.
+  pose proof (@fu_push_spec P HP false (fu_inner q) c' w Hw Hok) as Hs.
+  destruct (fu_push P false (fu_inner q) c' w) as [u w1]. destruct Hs as (_ & _ & Ht & _).
+  destruct H as (j & J1 & J2 & J3).
+  destruct front; unfold foi; cbn [held fu_inner fu_ord oheap ord_set_out ord_set_in]; (split; [lia|]);
+    exists (A1 + nalloc w1), A2; (splits; [lia | eapply gi_mono; [exact Hp|lia] | ]);
+    exists j; cbn [hcap ord_set_out ord_set_in]; splits; auto; intros Hj; specialize (J3 Hj); lia.
+Qed.
+
+Lemma fu_from_list_gi (mrg : bool) h l w :
+  winv (cnt []) None w -> nalloc w = 0 ->
+  let '(u, w') := fu_from_list P mrg h l w in gi u (nalloc w') (total (groups u)).
+Proof.
+  intros Hw0 Hz. unfold fu_from_list. destruct mrg.
+  - assert (H0 : gi fu_empty (0 + nalloc w) 0).
+    { split; [exact I|]. split; [simpl; lia|]. exists 0. splits; auto; try lia. }
+    pose proof (@push_fold_gi true l fu_empty w 0 0 Hw0 (fu_empty_ok true) H0) as Hf.
+    destruct (fold_left _ l (fu_empty, w)) as [u' w']. cbn [fst snd]. destruct Hf as [Hf Hle].
+    eapply gi_mono; [exact Hf|]. simpl. lia.
+  - pose proof (@with_capacity_gi false (Nat.max h (pMinCap P)) w Hw0 Hz) as H0.
+    pose proof (@fu_with_capacity_spec false (Nat.max h (pMinCap P)) w Hw0) as S0.
+    destruct (fu_with_capacity (Nat.max h (pMinCap P)) w) as [u0 w1].
+    destruct S0 as (A0 & B0 & _).
+    pose proof (@push_fold_gi false l u0 w1 0 _ A0 B0 H0) as Hf.
+    destruct (fold_left _ l (u0, w1)) as [u' w']. cbn [fst snd]. destruct Hf as [Hf Hle].
+    eapply gi_mono; [exact Hf|]. simpl. lia.
+Qed.
+
+(** a FuturesOrdered whose heap of parked outputs is empty and has been allocated at most once *)
+Lemma foi_fresh u o A1 A2 pk :
+  gi u A1 (total (groups u)) -> oheap o = [] -> A2 <= 1 ->
+  foi {| fu_inner := u; fu_ord := o |} (A1 + A2) (Nat.max pk (held (CFo {| fu_inner := u; fu_ord := o |}))).
+Proof.
+  intros G Ho Ha. cbn [held fu_inner fu_ord]. rewrite Ho. simpl. rewrite Nat.add_0_r.
+  split; [cbn [fu_inner fu_ord]; rewrite Ho; simpl; lia|]. exists A1, A2. cbn [fu_inner fu_ord]. splits; auto.
+  - eapply gi_mono; [exact G|lia].
+  - exists 0. splits; try lia.
+Qed.
+
+Lemma fo_GI q o w A pk :
+  winv (fo_own q) None w -> fu_ok false (fu_inner q) -> nalloc w = 0 -> foi q A pk ->
+  GI (fst (step_core P (CFo q) o w)) (A + nalloc (snd (step_core P (CFo q) o w)))
+     (Nat.max pk (held (fst (step_core P (CFo q) o w)))).
+Proof.
+  intros Hw Hok Hz Hf.
+  assert (Hsame : forall w', nalloc w' = nalloc w -> GI (CFo q) (A + nalloc w') (Nat.max pk (held (CFo q)))).
+  { intros w' E. rewrite E, Hz, Nat.add_0_r. simpl. eapply foi_mono; [exact Hf|lia]. }
+  unfold step_core.
+  destruct o as [ty p inits ups|c sc|c sc|c sc|c sc|t i|a| | | | ]; cbn [fst snd do_push].
+  - apply Hsame; reflexivity.
+  - pose proof (@fo_push_foi false q (mk_child c sc) w A pk Hw Hok Hz Hf) as Hp.
+    destruct (fo_push P false q (mk_child c sc) w) as [q' w']. cbn [fst snd GI]. rewrite na_emit. exact Hp.
+  - pose proof (@fo_push_foi true q (mk_child c sc) w A pk Hw Hok Hz Hf) as Hp.
+    destruct (fo_push P true q (mk_child c sc) w) as [q' w']. cbn [fst snd GI]. rewrite na_emit. exact Hp.
+  - apply Hsame; reflexivity.
+  - apply Hsame; reflexivity.
+  - assert (Hf0 : foi q (A + nalloc w) pk) by (rewrite Hz, Nat.add_0_r; exact Hf).
+    pose proof (@fo_poll_foi q t w A pk Hw Hok Hf0) as Hp. cbn [do_poll].
+    destruct (fo_poll_next P q t w) as [[q' sp] w']. cbn [fst snd GI]. rewrite na_emit_ret.
+    eapply foi_mono; [exact Hp|lia].
+  - apply Hsame; apply na_do_act.
+  - apply Hsame; destruct (observe _); reflexivity.
+  - apply Hsame; reflexivity.
+  - cbn [do_drop fst snd GI]. exact I.
+  - apply Hsame; unfold cleanup; apply na_cleanup_from.
+Qed.
+
 (** ** one operation *)
 Lemma step_GI s o A pk :
   Inv s -> GI (st_coll s) A pk -> is_dead (st_coll s) = false ->
@@ -233,11 +446,25 @@ Proof.
                | |- context [fub_from_list ?l ?w] => destruct (fub_from_list l w)
                | |- context [fub_new ?c ?w] => destruct (fub_new c w)
                | |- context [fob_from_list P ?l ?w] => destruct (fob_from_list P l w)
-               | |- context [fo_from_list P ?h ?l ?w] => destruct (fo_from_list P h l w)
                | |- context [fob_new P ?a ?b ?w] => destruct (fob_new P a b w) as [[?|] ?]
-               | |- context [fo_with_capacity P ?a ?b ?w] => destruct (fo_with_capacity P a b w) as [[?|] ?]
                | |- context [join_new ?a ?l ?w] => destruct (join_new a l w)
                end; cbn [fst snd st_coll st_world GI held]; auto.
+      (* FuturesOrdered: from_iter (also with the list case-split by the automation above), new, with_capacity *)
+      all: try solve [
+        unfold fo_from_list;
+        match goal with |- context [fu_from_list P false ?h ?l ?ww] =>
+          pose proof (@fu_from_list_gi false h l ww Hw0 Hz) as Hg; destruct (fu_from_list P false h l ww) as [u w1] end;
+        try destruct (p_seed p); cbn [fst snd st_coll st_world GI fu_inner];
+        replace (0 + nalloc w1) with (nalloc w1 + 0) by lia; apply foi_fresh; auto ].
+      all: try solve [
+        change (0 + nalloc w0) with (0 + 0); apply foi_fresh; auto;
+        split; [exact I|]; split; [simpl; lia|]; exists 0; splits; auto; lia ].
+      all: try solve [
+        unfold fo_with_capacity;
+        pose proof (@with_capacity_gi false (p_cap p) w0 Hw0 Hz) as H0;
+        destruct (fu_with_capacity (p_cap p) w0) as [u0 w1]; unfold heap_cap_for; cbn [fst snd st_coll st_world GI];
+        cbn [nalloc count_alloc]; rewrite (Nat.add_comm _ (nalloc w1)); simpl; apply foi_fresh; auto;
+        destruct (Nat.eqb _ 0); lia ].
       * (* FU from_iter *)
         unfold fu_from_list.
         pose proof (@with_capacity_gi false (Nat.max (lazy_hint p (mk_children inits)) (pMinCap P)) w0 Hw0 Hz) as H0.
@@ -268,7 +495,7 @@ Proof.
   - (* FuturesUnordered *) apply (@unb_GI false u o w0 A pk); auto.
   - (* MergeUnbounded *) apply (@unb_GI true u o w0 A pk); auto.
   - apply other_GI; exact I.
-  - apply other_GI; exact I.
+  - (* FuturesOrdered *) apply (@fo_GI q o w0 A pk); auto.
   - apply other_GI; exact I.
   - apply other_GI; exact I.
   - apply other_GI; exact I.
@@ -276,6 +503,11 @@ Qed.
 
 Lemma held_le_run_peak s ops : held (st_coll s) <= run_peak s ops.
 Proof. destruct ops; simpl; lia. Qed.
+
+Lemma GI_mono k A pk pk' : GI k A pk -> pk <= pk' -> GI k A pk'.
+Proof.
+  intros H Hle. destruct k; simpl in *; auto; try (eapply gi_mono; eauto). eapply foi_mono; eauto.
+Qed.
 
 (** ** every history *)
 Theorem allocations_logarithmic_in_peak ops :
@@ -286,7 +518,7 @@ Proof.
                              GI (st_coll (run_state P s ops)) (A + list_sum (run_allocs P s ops))
                                 (Nat.max pk (run_peak s ops))).
   { induction ops as [|o ops IH]; intros s A pk Hs Hgi Hh; simpl.
-    - rewrite Nat.add_0_r. destruct (st_coll s); simpl in *; auto; (eapply gi_mono; [exact Hgi|lia]).
+    - rewrite Nat.add_0_r. eapply GI_mono; [exact Hgi|lia].
     - destruct (is_dead (st_coll s)) eqn:Hd.
       + (* a dead collection: nothing happens any more *)
         destruct (st_coll s) eqn:Hk; try discriminate. clear IH.
@@ -298,10 +530,9 @@ Proof.
         specialize (IH (fst (step_op P s o)) (A + nalloc (st_world (fst (step_op P s o))))
                        (Nat.max pk (held (st_coll (fst (step_op P s o))))) (step_inv HP o Hs) Hstep ltac:(lia)).
         rewrite Nat.add_assoc. pose proof (held_le_run_peak (fst (step_op P s o)) ops) as Hp.
-        destruct (st_coll (run_state P (fst (step_op P s o)) ops)); simpl in *; auto;
-          (eapply gi_mono; [exact IH|lia]). }
+        eapply GI_mono; [exact IH|lia]. }
   specialize (H init_state 0 0 Inv_init eq_refl ltac:(simpl; lia)). simpl in H.
-  destruct (st_coll (run_state P init_state ops)); simpl in *; auto; (eapply gi_mono; [exact H|lia]).
+  eapply GI_mono; [exact H|lia].
 Qed.
 
 Corollary allocations_logarithmic_unfolded ops u :
@@ -311,6 +542,19 @@ Corollary allocations_logarithmic_unfolded ops u :
 Proof.
   intros Hc. pose proof (allocations_logarithmic_in_peak ops) as H.
   destruct Hc as [E|E]; rewrite E in H; destruct H as (_ & _ & k & A1 & _ & _ & A4); exists k; auto.
+Qed.
+
+(** FuturesOrdered: the groups of the inner collection (k) and the growths of the heap of parked
+    outputs (j) are both logarithmic in the peak of (futures in progress + parked outputs) *)
+Corollary allocations_logarithmic_ordered ops q :
+  st_coll (reach P ops) = CFo q ->
+  exists k j, list_sum (run_allocs P init_state ops) <= (3 * k + 3) + (j + 1)
+              /\ (2 <= k -> pGrowth P ^ (k - 2) <= run_peak init_state ops)
+              /\ (2 <= j -> 2 ^ j <= run_peak init_state ops).
+Proof.
+  intros Hc. pose proof (allocations_logarithmic_in_peak ops) as H. rewrite Hc in H.
+  destruct H as (_ & A1 & A2 & Hle & (_ & _ & k & K1 & _ & _ & K4) & (j & J1 & _ & J3)).
+  exists k, j. splits; auto. lia.
 Qed.
 
 End WithParams.
